@@ -5,6 +5,8 @@ import (
 	"sort"
 	"strings"
 
+	"gopkg.in/yaml.v3"
+
 	"verif/sim/model"
 	"verif/sim/simrt"
 )
@@ -58,6 +60,24 @@ func (p *C14) mk(seed uint64, r *model.Rand, key, ch string, label string) {
 }
 
 func (p *C14) Prepare(env *Env, tier string, seed uint64) error {
+	// keys the tree itself lists as supported (beyond the 28 of the statement)
+	r0, err := env.Exec(&Step{Step: simrt.Step{Argv: []string{"info", "key", "list"}}})
+	if err != nil {
+		return err
+	}
+	if r0.OK() {
+		var scales []struct {
+			Key string `yaml:"key"`
+		}
+		if err := yaml.Unmarshal(r0.Stdout, &scales); err == nil {
+			model.ExtraKeys = nil
+			for _, sc := range scales {
+				if _, ok := model.KeyStateOf(sc.Key); ok {
+					model.ExtraKeys = append(model.ExtraKeys, sc.Key)
+				}
+			}
+		}
+	}
 	if tier == "replay" {
 		return nil
 	}
@@ -83,7 +103,7 @@ func (p *C14) Prepare(env *Env, tier string, seed uint64) error {
 		}
 	}
 	rec("")
-	for _, k := range model.SupportedKeys {
+	for _, k := range model.AllKeys() {
 		for _, ch := range chains {
 			p.mk(seed, r, k, ch, "exhaustive")
 			p.nExh++
@@ -94,7 +114,7 @@ func (p *C14) Prepare(env *Env, tier string, seed uint64) error {
 	if tier == "thorough" {
 		runLens = []int{13, 14, 17, 23, 24, 25, 26, 36, 37, 48, 49, 61}
 	}
-	for _, k := range model.SupportedKeys {
+	for _, k := range model.AllKeys() {
 		for _, n := range runLens {
 			for _, op := range []string{"d", "s"} {
 				p.mk(seed, r, k, strings.Repeat(op, n), "long-run")
@@ -120,7 +140,7 @@ func (p *C14) Prepare(env *Env, tier string, seed uint64) error {
 		default:
 			ch = chain(r, 64)
 		}
-		p.mk(seed, r, model.Pick(r, model.SupportedKeys), ch, "random-long")
+		p.mk(seed, r, model.Pick(r, model.AllKeys()), ch, "random-long")
 		p.nRnd++
 	}
 	return nil
@@ -298,10 +318,10 @@ func (p *C14) Shrinks(c *Case) []*Case {
 
 func (p *C14) Extra() map[string]any {
 	return map[string]any{
-		"exhaustive":            true,
-		"exhaustive_over":       fmt.Sprintf("28 keys x all chains over {p,r,d,s} of length 1..%d (%d cases), each under >= 2 map-order schedules (4 when the chain touches B/Cb, F#/Gb, C#/Db, D#m/Ebm)", p.exhaustLen, p.nExh),
-		"random_long_chains":    p.nRnd,
-		"laws_witnessed":        p.laws,
+		"exhaustive":         true,
+		"exhaustive_over":    fmt.Sprintf("28 keys x all chains over {p,r,d,s} of length 1..%d (%d cases), each under >= 2 map-order schedules (4 when the chain touches B/Cb, F#/Gb, C#/Db, D#m/Ebm)", p.exhaustLen, p.nExh),
+		"random_long_chains": p.nRnd,
+		"laws_witnessed":     p.laws,
 	}
 }
 
@@ -311,7 +331,7 @@ func (p *C14) Rule() string {
 
 func (p *C14) Assumptions() []string {
 	return []string{
-		"the 28 supported keys are taken from the property statement",
+		"the supported keys are the 28 of the property statement plus any further key the tree's own `info key list` prints",
 		"the order of the printed lines is ignored here (C12 decides it)",
 	}
 }
